@@ -1,7 +1,7 @@
 (* Proofs/ProtoConvProofs.v — theorems about the remote-write conversion model
    (Model/ProtoConv.v): one row per sample with exact fields. *)
 From Coq Require Import ZArith List Sorting.Sorted.
-From CS Require Import Base.Prelude Model.Proto Model.ProtoConv.
+From CS Require Import Base.Prelude Model.Proto Model.ProtoConv Proofs.ProtoProofs.
 Open Scope N_scope.
 
 (* ------------------------------------------------------------------ *)
@@ -388,4 +388,19 @@ Proof.
   intros r b H. apply convert_faithful in H. destruct H as (_ & _ & rows & Hr & HF).
   rewrite Hr. clear Hr. induction HF as [|t rs r rows Hh _ IH]; cbn [concat fold_right length]; [reflexivity|].
   rewrite app_length, IH. f_equal. symmetry. eapply Forall2_length. exact Hh.
+Qed.
+
+(* the HTTP handler answers every body with a status: it never panics or hangs *)
+Theorem handle_total : forall (m : build) (body : option bytes),
+  (forall d, body = Some d -> N.of_nat (length d) < I63) ->
+  match handle m body with
+  | H204 | H400 | H500 => True
+  | HPanic | HHang => False
+  end.
+Proof.
+  intros m body Hlen. unfold handle. destruct body as [d|]; [|exact I].
+  pose proof (parse_total m d (Hlen d eq_refl)) as Hp.
+  destruct (parse_write_request (current m) d) as [r|c| |]; try exact I; try contradiction.
+  pose proof (convert_total r) as Hc.
+  destruct (convert r); try exact I; contradiction.
 Qed.
